@@ -307,6 +307,212 @@ pub fn run(cli: &Cli) -> Report {
             }
         }
     });
+    positions(&mut rep, &db, &w, th);
     gmsol_programs::model::clock_verif::set_now(None);
     rep
+}
+
+/// the fields of a position state that the model owns (timestamps, slots and trade ids are set by the program around it)
+fn pos_fields(s: &sdk_types::PositionState) -> [(&'static str, u128); 7] {
+    [
+        ("size_in_usd", s.size_in_usd),
+        ("size_in_tokens", s.size_in_tokens),
+        ("collateral_amount", s.collateral_amount),
+        ("borrowing_factor", s.borrowing_factor),
+        ("funding_fee_amount_per_size", s.funding_fee_amount_per_size),
+        ("long_token_claimable_funding_amount_per_size", s.long_token_claimable_funding_amount_per_size),
+        ("short_token_claimable_funding_amount_per_size", s.short_token_claimable_funding_amount_per_size),
+    ]
+}
+
+use gmsol_programs::gmsol_store::types as sdk_types;
+
+/// (e) position increase / decrease through the real order instructions against the SDK `PositionModel`
+fn positions(rep: &mut Report, db0: &Db, w: &W, th: bool) {
+    use crate::orders::Side;
+    use gmsol_model::action::decrease_position::{DecreasePositionFlags, DecreasePositionSwapType};
+    use gmsol_model::PositionMutExt;
+    use gmsol_programs::model::PositionModel;
+    use gmsol_store::events::TradeData;
+    let mut db = db0.clone();
+    set_now(1_000);
+    // a pure market (both sides in token B) beside the A/B market; liquidity, user and keeper preparation
+    let pure = w.add_market(&mut db, w.a, w.b, w.b, "A/USD[B-B]");
+    let seed = [8u8; 32];
+    for (m, la, sa) in [(&w.m1, 400_000_000u64, 5_000_000_000u64), (&pure, 3_000_000_000, 3_000_000_000)] {
+        w.create_deposit(&mut db, m, w.user2, seed, la, sa, 0, w.user2).expect("seed create");
+        w.execute_deposit(&mut db, m, w.user2, seed, w.keeper, true).expect("seed execute");
+        w.close_deposit(&mut db, m, w.user2, seed, w.user2).expect("seed close");
+    }
+    w.prepare_user(&mut db, w.user).expect("prepare_user");
+    w.prepare_event_buffer(&mut db, w.keeper, 0).expect("event buffer");
+    let unit = 10u128.pow(20);
+    let mut cases: Vec<(usize, Side, u64, u128, usize)> = vec![];
+    // (market, side, collateral, size, price move)
+    let moves: Vec<usize> = if th { vec![0, 1, 2, 3] } else { vec![1, 2] };
+    for mi in 0..2usize {
+        for is_long in [true, false] {
+            for collateral_long in [true, false] {
+                for &mv in &moves {
+                    // collateral worth 100..120 USD, 3x leverage
+                    let side = Side { is_long, collateral_long };
+                    let collateral = if mi == 0 && collateral_long { 10_000_000 } else { 120_000_000 };
+                    cases.push((mi, side, collateral, 300 * unit, mv));
+                    if th {
+                        cases.push((mi, side, collateral, 777 * unit / 10, mv));
+                    }
+                }
+            }
+        }
+    }
+    // price of A after the position was opened at 12: unchanged, up (also with a spread), down
+    const MOVES: [(u128, u128); 4] = [(12_0000_0000, 12_0000_0000), (13_0000_0000, 13_2000_0000), (11_0000_0000, 11_1000_0000), (12_5000_0000, 12_5000_0000)];
+    let counters = e1::run(rep, "position orders vs SDK PositionModel", &cases, |&(mi, side, collateral, size, mv), sink| {
+        let m = if mi == 0 { w.m1.clone() } else { pure.clone() };
+        let mut d = db.clone();
+        set_now(1_000);
+        w.set_feeds(&mut d, 1_000, (12_0000_0000, 12_0000_0000), (1_0000_0000, 1_0000_0000));
+        let rp = || json!({"section": "positions", "market": if mi == 0 { "A|A/B" } else { "A|B/B (pure)" }, "is_long": side.is_long, "collateral_long": side.collateral_long, "collateral": collateral, "size": size.to_string(), "move": mv});
+        let prices_of = |d: &Db| -> Prices<u128> {
+            let p = unit_prices(w, d);
+            if mi == 0 { p } else { Prices { index_token_price: p.index_token_price, long_token_price: p.short_token_price, short_token_price: p.short_token_price } }
+        };
+        if w.prepare_position(&mut d, &m, w.user, side).is_err() {
+            sink.case(false);
+            sink.count("position_not_preparable");
+            return;
+        }
+        let pos_key = w.position_pda(&w.user, &m, side);
+        let sdk_pos = |d: &Db| -> Option<sdk::Position> { d.accounts.get(&pos_key).filter(|a| a.data.len() >= 8 + std::mem::size_of::<sdk::Position>()).map(|a| bytemuck::pod_read_unaligned(&a.data[8..8 + std::mem::size_of::<sdk::Position>()])) };
+        let sdk_order = |d: &Db, n: &[u8; 32]| -> sdk::Order { let a = d.get(&w.order_pda(&w.user, n)); bytemuck::pod_read_unaligned(&a.data[8..8 + std::mem::size_of::<sdk::Order>()]) };
+        let event = |d: &Db| -> TradeData { d.pod(&w.event_pda(&w.keeper, 0)).expect("event buffer") };
+        let compare_market = |d: &Db, model: &MarketModel, what: &str, sink: &mut e1::Sink| {
+            let after: Market = w.market(d, &m);
+            for ((name, x), (_, y)) in all_params(&after).iter().zip(all_params(model).iter()) {
+                if x != y {
+                    sink.fail("C40/state_after_execution_differs", format!("{what}: market {name}: program {x:?}, SDK {y:?}"), rp());
+                }
+            }
+        };
+        // ---- increase
+        let n1 = [0x31u8; 32];
+        if let Err(e) = w.create_increase(&mut d, &m, w.user, n1, side, collateral, size) {
+            sink.case(false);
+            sink.count("increase_not_created");
+            let _ = e;
+            return;
+        }
+        let prices = prices_of(&d);
+        let acceptable = sdk_order(&d, &n1).params.acceptable_price;
+        let model = model_of(&d, &m);
+        let Some(p0) = sdk_pos(&d) else { sink.fail("C40/machinery_position_unreadable", "position account".into(), rp()); return };
+        let sim = mc_core::catch(|| -> std::result::Result<(PositionModel, u128, i128), String> {
+            let mut pm = PositionModel::new(model, Arc::new(p0)).map_err(|e| e.to_string())?;
+            let r = pm.increase(prices, collateral as u128, size, Some(acceptable)).and_then(|a| a.execute()).map_err(|e| e.to_string())?;
+            Ok((pm, *r.execution().execution_price(), *r.execution().price_impact_value()))
+        });
+        let executed = w.execute_increase(&mut d, &m, w.user, n1, side, w.keeper, true);
+        sink.case(executed.is_ok());
+        match (&executed, sim) {
+            (Ok(()), Ok(Ok((pm, exec_price, impact)))) => {
+                sink.count("increase_compared");
+                let ev = event(&d);
+                if ev.execution_price != exec_price || ev.price_impact_value != impact {
+                    sink.fail("C40/execution_result_differs", format!("increase: program execution price {} impact {}, SDK {exec_price} {impact}", ev.execution_price, ev.price_impact_value), rp());
+                }
+                let Some(p1) = sdk_pos(&d) else { sink.fail("C40/machinery_position_unreadable", "position after increase".into(), rp()); return };
+                for ((name, x), (_, y)) in pos_fields(&p1.state).iter().zip(pos_fields(&pm.position().state).iter()) {
+                    if x != y {
+                        sink.fail("C40/position_after_execution_differs", format!("increase: {name}: program {x}, SDK {y}"), rp());
+                    }
+                }
+                compare_market(&d, pm.market_model(), "increase", sink);
+            }
+            (Err(_), Ok(Err(_))) => {
+                sink.count("increase_rejected_by_both");
+                return;
+            }
+            (p, s) => {
+                sink.fail("C40/execution_result_differs", format!("increase: program {p:?}, SDK {:?}", s.map(|r| r.map(|_| "ok"))), rp());
+                return;
+            }
+        }
+        // ---- price move, then a partial and a full decrease
+        w.set_feeds(&mut d, 1_000, MOVES[mv], (1_0000_0000, 1_0000_0000));
+        for (k, (dsize, withdraw)) in [(size / 3, 1_000u64), (size - size / 3, 0u64)].iter().enumerate() {
+            let n = [0x40 + k as u8; 32];
+            if w.create_decrease(&mut d, &m, w.user, n, side, *withdraw, *dsize).is_err() {
+                sink.count("decrease_not_created");
+                return;
+            }
+            let prices = prices_of(&d);
+            let acceptable = sdk_order(&d, &n).params.acceptable_price;
+            let model = model_of(&d, &m);
+            let Some(p0) = sdk_pos(&d) else { return };
+            let sim = mc_core::catch(|| -> std::result::Result<(PositionModel, [u128; 4], [i128; 3], bool), String> {
+                let mut pm = PositionModel::new(model, Arc::new(p0)).map_err(|e| e.to_string())?;
+                let r = pm
+                    .decrease(prices, *dsize, Some(acceptable), *withdraw as u128, DecreasePositionFlags { is_insolvent_close_allowed: false, is_liquidation_order: false, is_cap_size_delta_usd_allowed: false })
+                    .map(|a| a.set_swap(DecreasePositionSwapType::NoSwap))
+                    .and_then(|a| a.execute())
+                    .map_err(|e| e.to_string())?;
+                let out = [*r.output_amounts().output_amount(), *r.output_amounts().secondary_output_amount(), *r.execution_price(), *r.price_impact_diff()];
+                let signed = [*r.price_impact_value(), *r.pnl().pnl(), *r.pnl().uncapped_pnl()];
+                Ok((pm, out, signed, r.should_remove()))
+            });
+            let executed = w.execute_decrease(&mut d, &m, w.user, n, side, w.keeper, true);
+            sink.case(executed.is_ok());
+            match (&executed, sim) {
+                (Ok(()), Ok(Ok((pm, out, signed, removed)))) => {
+                    sink.count("decrease_compared");
+                    let ev = event(&d);
+                    let got = [ev.output_amounts.output_amount, ev.output_amounts.secondary_output_amount, ev.execution_price, ev.price_impact_diff];
+                    let got_signed = [ev.price_impact_value, ev.pnl.pnl, ev.pnl.uncapped_pnl];
+                    if got != out || got_signed != signed {
+                        sink.fail("C40/execution_result_differs", format!("decrease {k}: program (output, secondary output, execution price, impact diff) = {got:?}, (impact, pnl, uncapped pnl) = {got_signed:?}; SDK {out:?} {signed:?}"), rp());
+                    }
+                    if out[1] != 0 {
+                        sink.count("decrease_with_secondary_output");
+                    }
+                    let after = sdk_pos(&d);
+                    if removed != after.is_none() {
+                        sink.fail("C40/execution_result_differs", format!("decrease {k}: SDK should_remove {removed}, program position account present {}", after.is_some()), rp());
+                    }
+                    // the state after: from the account, or from the event buffer when the account was removed
+                    let prog_state: [(&str, u128); 7] = match &after {
+                        Some(p) => pos_fields(&p.state),
+                        None => {
+                            let s = &ev.after;
+                            [("size_in_usd", s.size_in_usd), ("size_in_tokens", s.size_in_tokens), ("collateral_amount", s.collateral_amount), ("borrowing_factor", s.borrowing_factor), ("funding_fee_amount_per_size", s.funding_fee_amount_per_size), ("long_token_claimable_funding_amount_per_size", s.long_token_claimable_funding_amount_per_size), ("short_token_claimable_funding_amount_per_size", s.short_token_claimable_funding_amount_per_size)]
+                        }
+                    };
+                    for ((name, x), (_, y)) in prog_state.iter().zip(pos_fields(&pm.position().state).iter()) {
+                        if x != y {
+                            sink.fail("C40/position_after_execution_differs", format!("decrease {k}: {name}: program {x}, SDK {y}"), rp());
+                        }
+                    }
+                    compare_market(&d, pm.market_model(), "decrease", sink);
+                    if after.is_none() {
+                        return;
+                    }
+                }
+                (Err(_), Ok(Err(e))) => {
+                    sink.count("decrease_rejected_by_both");
+                    if std::env::var_os("SVM_LOG").is_some() {
+                        eprintln!("decrease {k} rejected by both: {e} | {}", rp());
+                    }
+                    return;
+                }
+                (p, s) => {
+                    sink.fail("C40/execution_result_differs", format!("decrease {k}: program {p:?}, SDK {:?}", s.map(|r| r.map(|_| "ok"))), rp());
+                    return;
+                }
+            }
+        }
+    });
+    for k in ["increase_compared", "decrease_compared", "decrease_with_secondary_output"] {
+        if counters.get(k).copied().unwrap_or(0) == 0 {
+            rep.machinery(format!("vacuous position section: {k} never occurred"));
+        }
+    }
 }
